@@ -308,6 +308,15 @@ if __name__ == "__main__":
         phase1(int(sys.argv[2]) if len(sys.argv) > 2 else 12)
     elif cmd == "run":
         phase2(int(sys.argv[2]) if len(sys.argv) > 2 else 6, set(sys.argv[3:]) or None)
+    elif cmd == "rerun":
+        # after the harness changed: refresh the scratch copies of /verif and re-run the mutants not caught so far (optionally one file)
+        for k in range(64):
+            if os.path.isdir(f"{ROOT}/w{k}/verif"):
+                subprocess.run(["rsync", "-a", "--exclude", ".git", "--exclude", "replays", "/verif/", f"{ROOT}/w{k}/verif/"], check=True)
+        done = json.load(open(f"{ROOT}/phase2.json"))
+        keep = [m for m in done if m.get("caught_by") or (len(sys.argv) > 3 and not m["file"].startswith(sys.argv[3]))]
+        json.dump(keep, open(f"{ROOT}/phase2.json", "w"), indent=1)
+        phase2(int(sys.argv[2]) if len(sys.argv) > 2 else 6)
     elif cmd == "tsv":
         write_tsv(json.load(open(f"{ROOT}/phase2.json")))
     elif cmd == "clean":
